@@ -23,7 +23,7 @@ CONSTANTS Configs,      \* set of <<InitialDelay, MaxDelay, MaxPendingEvents (0 
           AdvIdleOnly,  \* TRUE: the clock moves only when nothing else can (liveness configurations)
           UseMonitor,   \* FALSE: the monitor is switched off (liveness configurations)
           CloseFix,     \* FALSE: Close as written (holds the lock across wg.Wait); TRUE: repaired
-          Variant       \* "ok" | "capeq" | "skipfire" | "close2early" | "alwaysdouble": known-bad variants (non-vacuity)
+          Variant       \* "ok" | "capeq" | "skipfire" | "close2early" | "alwaysdouble" | "inputctx" | "bfkept": known-bad variants (non-vacuity)
 
 Gs == 1..Len(AddProgs)
 Ks == 1..NClosers
@@ -66,7 +66,7 @@ AtRest == /\ \A g \in Gs : apc[g] # "body" /\ (apc[g] = "called" => lock # 0)
           /\ ~(tokS > 0 /\ closeCh)
           /\ (rpc \in {"top", "input", "timer"} => lock # 0) /\ rpc \notin {"ret", "exited"}
           /\ (rpc = "select" => ~(cancelled \/ closeCh \/ tokS > 0 \/ (tch /\ tstate = "fired")))
-          /\ (sigS # {} => cons # "ready" /\ ~RctxDone)
+          /\ \A x \in sigS : cons # "ready" /\ ~(IF 0 \in x THEN cancelled ELSE RctxDone)
           /\ \A k \in Ks : /\ cpc[k] # "unlocked" /\ (cpc[k] = "wait" => wg # 0)
                             /\ (cpc[k] = "called" => CloseFix /\ lock # 0) /\ (cpc[k] = "beforeLock" => lock # 0)
 (* the harness observes at rest; in the model the observation is taken as soon as it is informative *)
@@ -117,14 +117,19 @@ FireSig == IF pendSet # {} /\ ~(Variant = "skipfire" /\ sigS # {}) THEN sigS \cu
 FireWg == IF pendSet # {} /\ ~(Variant = "skipfire" /\ sigS # {}) THEN wg + 1 ELSE wg
 (* width of backoffFactor in the "alwaysdouble" variant: 2 bits, so the third doubling wraps to 0 (64 bits in the code) *)
 FactorRange == 4
+(* known-bad "inputctx": senders spawned from the input path watch the CALLER's context (tagged with 0), not Run's *)
+FireSigIn == IF Variant = "inputctx" /\ pendSet # {} THEN sigS \cup {pendSet \cup {0}} ELSE FireSig
 CapReached == Cap > 0 /\ (IF Variant = "capeq" THEN Cardinality(pendSet) = Cap ELSE Cardinality(pendSet) >= Cap)
 RunInput == /\ rpc = "input" /\ lock = 0 /\ rpc' = "top"
             /\ IF ~hasTimer
                  THEN /\ hasTimer' = TRUE /\ tstate' = "armed" /\ deadline' = now + I
-                      /\ sigS' = FireSig /\ wg' = FireWg /\ pendSet' = {} /\ UNCHANGED <<curDur, bf>>
+                      /\ sigS' = FireSigIn /\ wg' = FireWg /\ pendSet' = {} /\ UNCHANGED <<curDur, bf>>
                  ELSE IF CapReached
-                   THEN /\ sigS' = FireSig /\ wg' = FireWg /\ pendSet' = {} /\ UNCHANGED <<hasTimer, tstate, deadline, curDur, bf>>
-                   ELSE /\ IF Variant = "alwaysdouble"
+                   THEN /\ sigS' = FireSigIn /\ wg' = FireWg /\ pendSet' = {} /\ UNCHANGED <<hasTimer, tstate, deadline, curDur, bf>>
+                   ELSE /\ IF Variant = "bfkept"
+                             (* known-bad: the factor is never put back to 1 (see RunTimer), the duration restarts from it *)
+                             THEN IF curDur < M THEN bf' = 2 * bf /\ curDur' = Min2(I * bf', M) ELSE UNCHANGED <<curDur, bf>>
+                             ELSE IF Variant = "alwaysdouble"
                              (* known-bad: the factor is doubled on every Add in a machine integer and wraps *)
                              THEN /\ bf' = (2 * bf) % FactorRange /\ curDur' = Min2(I * bf', M)
                              (* as written: doubled only while below MaxDelay, then capped *)
@@ -135,7 +140,8 @@ RunInput == /\ rpc = "input" /\ lock = 0 /\ rpc' = "top"
                            tch, apc, aid, aleft, nextId, cpc, chelp, cons, counted, cov, c>>
 RunTimer == /\ rpc = "timer" /\ lock = 0 /\ rpc' = "top"
             /\ sigS' = FireSig /\ wg' = FireWg
-            /\ pendSet' = {} /\ hasTimer' = FALSE /\ tstate' = "none" /\ deadline' = 0 /\ curDur' = I /\ bf' = 1
+            /\ pendSet' = {} /\ hasTimer' = FALSE /\ tstate' = "none" /\ deadline' = 0
+            /\ IF Variant = "bfkept" THEN curDur' = I /\ UNCHANGED bf ELSE curDur' = I /\ bf' = 1
             /\ UNCHANGED <<cfg, kind, now, lock, closed, closeCh, cancelled, tokS,
                            tch, apc, aid, aleft, nextId, cpc, chelp, cons, counted, cov, c>>
 (* return: deferred cancel() and wg.Done(); then the caller sees Run return *)
@@ -153,7 +159,7 @@ Deliver(x) == /\ x \in sigS /\ cons = "ready"
               /\ Obs([ev |-> "signal"])
               /\ UNCHANGED <<cfg, kind, now, lock, closed, closeCh, cancelled, pendSet, hasTimer, tstate, deadline, curDur, bf, tokS,
                              rpc, tch, apc, aid, aleft, nextId, cpc, chelp, counted>>
-SigExit(x) == /\ x \in sigS /\ RctxDone /\ sigS' = sigS \ {x} /\ wg' = wg - 1
+SigExit(x) == /\ x \in sigS /\ (IF 0 \in x THEN cancelled ELSE RctxDone) /\ sigS' = sigS \ {x} /\ wg' = wg - 1
               /\ UNCHANGED <<cfg, kind, now, lock, closed, closeCh, cancelled, pendSet, hasTimer, tstate, deadline, curDur, bf, tokS,
                              rpc, tch, apc, aid, aleft, nextId, cpc, chelp, cons, counted, cov, c>>
 
@@ -230,7 +236,7 @@ CloseWaited == \A k \in Ks : cpc[k] \in {"unlocked", "done"} => chelp[k] = 0
 (* at rest, before cancel/Close, with the consumer receiving and no window open, every Add is covered *)
 NoLostAdd == (AtRest /\ InFlight = 0 /\ ~cancelled /\ ~closeCh /\ cons = "ready" /\ ~hasTimer) => counted \subseteq cov
 TypeOK == /\ wg >= 0 /\ tokS >= 0 /\ pendSet \subseteq counted /\ (hasTimer <=> tstate # "none")
-          /\ (Variant # "alwaysdouble" => curDur >= I /\ curDur <= M /\ bf = 1)
+          /\ (Variant \notin {"alwaysdouble", "bfkept"} => curDur >= I /\ curDur <= M /\ bf = 1)
 
 CloseReturns == \A k \in Ks : (cpc[k] = "called") ~> (cpc[k] = "done")
 AddsReturn == \A g \in Gs : (apc[g] = "called") ~> (apc[g] = "idle")
